@@ -195,6 +195,35 @@ def run_case(case, rep_):
             if got.shape != want.shape or np.abs(got - want).max() > TOL * (1 + np.abs(want).max()):
                 V(f"apply:{name}", f"representation '{name}' applied to a basis operator differs from the map (max dev {np.abs(got - want).max() if got.shape == want.shape else 'shape'})")
                 break
+    # --- Choi and chi matrices applied by their definitions (not through the library's own conversion back):
+    #     J = sum_ij E_ij (x) L(E_ij)  =>  L(X) = Tr_in[(X^T (x) 1) J];   L(X) = sum_ab chi_ab B_a X B_b^dagger with B_a the
+    #     Pauli products divided by sqrt(2) per qubit, first qubit most significant (the user guide's formula)
+    import itertools
+    for X in basis:
+        want = fn(X)
+        J = reps["choi"].full()
+        got = np.einsum("ij,iajb->ab", X, J.reshape(din, dout, din, dout))      # Tr_in[(X^T (x) 1) J]
+        rep_.evaluations += 1
+        if got.shape != want.shape or np.abs(got - want).max() > TOL * (1 + np.abs(want).max()):
+            V("apply-definition:choi", f"the Choi matrix contracted with an operator, Tr_in[(X^T (x) 1) J], differs from the map (max dev {np.abs(got - want).max() if got.shape == want.shape else 'shape'})")
+            break
+    if "chi" in reps:
+        nq = int(round(np.log2(din)))
+        pa = [np.eye(2), np.array([[0, 1], [1, 0]]), np.array([[0, -1j], [1j, 0]]), np.array([[1, 0], [0, -1]])]
+        Bs = []
+        for idx in itertools.product(range(4), repeat=nq):
+            m = np.array([[1.0 + 0j]])
+            for a_ in idx:
+                m = np.kron(m, pa[a_])
+            Bs.append(m / np.sqrt(2) ** nq)
+        c = reps["chi"].full() / 2 ** nq        # the library normalises tr(chi) = d^2 for a trace-preserving map; the guide's B_a carry 1/sqrt(d)
+        for X in basis:
+            want = fn(X)
+            got = sum(c[a_, b_] * Bs[a_] @ X @ Bs[b_].conj().T for a_ in range(len(Bs)) for b_ in range(len(Bs)) if c[a_, b_] != 0)
+            rep_.evaluations += 1
+            if np.shape(got) != want.shape or np.abs(got - want).max() > TOL * (1 + np.abs(want).max()):
+                V("apply-definition:chi", f"sum_ab chi_ab P_a X P_b^dagger / d (Pauli products, first qubit most significant) differs from the map (max dev {np.abs(got - want).max() if np.shape(got) == want.shape else 'shape'})")
+                break
     # --- round trips
     def close(a, b):
         return a.shape == b.shape and np.abs(a.full() - b.full()).max() <= TOL * (1 + np.abs(b.full()).max())
